@@ -315,6 +315,10 @@ module TB = struct
     L.iter (fun w ->
       if !dead then print_string "ILLEGAL\n" else
       let i n = int_of_string (L.nth w n) in
+      if L.hd w = "PROBE" then
+        Printf.printf "%s|%s|%s\n" (if gate !b (i 1 = 1) (i 2 = 1) then "grant" else "wait")
+          (ints (L.map (fun x -> int_of_nat x.mid) !b.moving)) (ints (L.map int_of_nat !b.bready))
+      else
       let o = match L.hd w with
         | "IDLE" -> BIdle (z_of_int (i 1))
         | "RSV" -> BRsv (i 1 = 1, i 2 = 1)
